@@ -14,7 +14,10 @@ EXPLANATION = (
     "parser.current_point. R17.3 routing: the str branches of Path.__iadd__, Path.__add__ (copy then +=), "
     "PathSegment.__iadd__/__add__ end in parse on the existing path; parse/start/end never rebind or clear _segments. "
     "R17.4: path/subpath concatenation copies the right operand's segments and goes through extend (which links the "
-    "first start); shape concatenation parses shape.d(). Not decided: segment-wise numeric equality."
+    "first start); shape concatenation parses shape.d(). "
+    "The lexer's command dispatch never reads its cursor (self.pos / limit / pathd): how a command is read cannot depend on "
+    "where in the string it stands, which is exactly what differs between Path(a b) and Path(a) + b. "
+    "Not decided: segment-wise numeric equality."
 )
 ASSUMPTIONS = [
     "Attribute reads are collected syntactically on `self`; aliasing `self` through another name is not followed (none exists today and would be reported as an unknown read of a local).",
